@@ -124,7 +124,9 @@ func runProperty(w *World, prop string, cfg SolverCfg) *checkResult {
 	}
 	res.synt = append(res.synt, w.checkFrames(prop)...)
 	res.synt = append(res.synt, w.checkImpls(prop)...)
-	res.synt = append(res.synt, w.checkRecursion(prop)...)
+	if prop == "C11" || prop == "C12" {
+		res.synt = append(res.synt, w.checkRecursion(prop)...)
+	}
 	for _, r := range res.funcs {
 		res.all = append(res.all, r.Obls...)
 	}
@@ -159,10 +161,10 @@ func report(w *World, res *checkResult, tier string, seed int, cfg SolverCfg, t0
 	for _, o := range res.all {
 		famObls[o.Family] = append(famObls[o.Family], o)
 		if o.Status == "discharged" {
-			if famStatus[o.Family] == "" {
-				famStatus[o.Family] = "discharged"
+			if famStatus[o.Family] == "" || o.Kind == "vacuity" {
+				famStatus[o.Family] = "discharged" // vacuity: one satisfiable path to the point is enough
 			}
-		} else {
+		} else if !(o.Kind == "vacuity" && famStatus[o.Family] == "discharged") {
 			famStatus[o.Family] = "failed"
 		}
 	}
@@ -220,7 +222,7 @@ func report(w *World, res *checkResult, tier string, seed int, cfg SolverCfg, t0
 			fmt.Printf("VIOLATION property=%s replay=%s\n", prop, rp.Path)
 			fmt.Printf("  obligation %s [%s] at %s: %s\n", bad.ID, bad.Status, bad.Pos, bad.Text)
 		} else {
-			line := fmt.Sprintf("UNDECIDED property=%s %s [%s] at %s (new obligation family, no replayable counterexample)", prop, bad.ID, bad.Status, bad.Pos)
+			line := fmt.Sprintf("UNDECIDED property=%s %s [%s] at %s (new obligation family, no replayable counterexample): %s", prop, bad.ID, bad.Status, bad.Pos, bad.Text)
 			undecided = append(undecided, line)
 			fmt.Println(line)
 		}
